@@ -77,7 +77,7 @@ def shared_circuit(rng):
 def one_case(rep, cs, seed, i, nsamples):
     rng = rng_for(seed, PID, i)
     torch.manual_seed(seed * 104729 + i)
-    o = gen.random_opts(rng, kinds=["cat_softmax", "cat_probs"], monotone=True, normalized=True, nout=1, K=1)
+    o = gen.random_opts(rng, kinds=["cat_softmax", "cat_probs", "bin"] if i % 3 == 1 else ["cat_softmax", "cat_probs"], monotone=True, normalized=True, nout=1, K=1)
     o["nvars"] = rng.choice([1, 2, 2, 3])
     o["varset"] = rng.choice(["dense", "dense", "sparse", "shift"])
     if i % 4 == 3:
@@ -168,15 +168,99 @@ def one_case(rep, cs, seed, i, nsamples):
     cs.add(desc, term, interp, nontrivial=g.desc["sums"] >= 1 and g.desc["prods"] >= 1)
 
 
+def gauss_case(rep, seed, i, nsamples):
+    """continuous inputs: a normalised mixture of products of Gaussians; first and second (cross) moments of the samples
+    against the closed-form moments of the mixture (z-tests at 6 sigma)"""
+    from cirkit.symbolic import layers as L
+    from cirkit.symbolic import parameters as P
+    from cirkit.symbolic.circuit import Circuit
+    from cirkit.utils.scope import Scope
+    rng = rng_for(seed, PID + "gau", i)
+    torch.manual_seed(seed * 7919 + i)
+    n = rng.choice([2, 2, 3])
+    K = rng.choice([1, 2, 3])
+    vs = gen.VAR_SETS[rng.choice(["dense", "sparse"])](n)
+    mus = {v: gen.dy_array(rng, (K,), -8, 8, 2) for v in vs}
+    sds = {v: gen.dy_array(rng, (K,), 1, 6, 4) for v in vs}
+    ins = [L.GaussianLayer(Scope([v]), K, mean=P.Parameter.from_input(gen.tensor(mus[v])), stddev=P.Parameter.from_input(gen.tensor(sds[v]))) for v in vs]
+    pl = L.KroneckerLayer(K, arity=n) if (rng.random() < 0.3 and n >= 2) else L.HadamardLayer(K, arity=n)
+    kron = isinstance(pl, L.KroneckerLayer)
+    Kp = K ** n if kron else K
+    theta = gen.dy_array(rng, (1, Kp), -4, 4)
+    sl = L.SumLayer(Kp, 1, arity=1, weight=P.Parameter.from_unary(P.SoftmaxParameter((1, Kp), axis=1), gen.tensor(theta)))
+    sc = Circuit(ins + [pl, sl], {pl: ins, sl: [pl]}, [sl])
+    fold, opt = rng.choice(evalc.FLAGS)
+    desc = {"i": i, "seed": seed, "family": "gaussian-mixture", "fold": fold, "opt": opt, "nsamples": nsamples, "vars": list(vs), "K": K, "kron": kron}
+    rep.count("family:gaussian-mixture")
+    rep.case(desc, True)
+    w = np.exp(theta[0] - theta[0].max())
+    w = w / w.sum()
+    # component k of the product layer uses unit idx[v][k] of variable v
+    if kron:
+        comps = list(itertools.product(range(K), repeat=n))
+    else:
+        comps = [(k,) * n for k in range(K)]
+    try:
+        cc = evalc.make_ctx("sum-product", fold, opt).compile(sc)
+        samples, _ = SamplingQuery(cc)(num_samples=nsamples)
+        samples = samples.detach().numpy()
+    except TypeError as e:
+        if "not implemented" in str(e) or "not supported" in str(e):
+            rep.count("refused:" + str(e)[:40])
+            return
+        rep.violation("sampling-exception:TypeError", "the sampling query raised on a normalised monotonic circuit", {"case": desc, "exception": repr(e)[:300]})
+        return
+    except Exception as e:
+        rep.violation("sampling-exception:" + type(e).__name__, "the sampling query raised on a normalised monotonic circuit",
+                      {"case": desc, "exception": repr(e)[:300], "traceback": traceback.format_exc()[-1500:]})
+        return
+    W = evalc.width_of(sc)
+    if samples.shape != (nsamples, W) and samples.shape != (nsamples, n):
+        rep.violation("sample-width", "the samples do not have one column per variable", {"case": desc, "observed": list(samples.shape)})
+        return
+    col = (lambda v: samples[:, v]) if samples.shape[1] == W else (lambda v: samples[:, list(vs).index(v)])
+    for a_, v in enumerate(vs):
+        m1 = sum(w[c] * mus[v][comp[a_]] for c, comp in enumerate(comps))
+        m2 = sum(w[c] * (sds[v][comp[a_]] ** 2 + mus[v][comp[a_]] ** 2) for c, comp in enumerate(comps))
+        var = max(m2 - m1 ** 2, 1e-12)
+        x = col(v)
+        z = abs(x.mean() - m1) / np.sqrt(var / nsamples)
+        if z > 6.5:
+            rep.violation("sample-moment", "the sample mean of a continuous variable is incompatible with the mean of the circuit's marginal (z > 6.5)",
+                          {"case": desc, "variable": v, "sample_mean": float(x.mean()), "expected": float(m1), "z": float(z)})
+            return
+        # second moment (fourth moment of a Gaussian mixture bounds its variance)
+        m4 = sum(w[c] * (mus[v][comp[a_]] ** 4 + 6 * mus[v][comp[a_]] ** 2 * sds[v][comp[a_]] ** 2 + 3 * sds[v][comp[a_]] ** 4) for c, comp in enumerate(comps))
+        z2 = abs((x ** 2).mean() - m2) / np.sqrt(max(m4 - m2 ** 2, 1e-12) / nsamples)
+        if z2 > 6.5:
+            rep.violation("sample-moment", "the sample second moment of a continuous variable is incompatible with the circuit's marginal (z > 6.5)",
+                          {"case": desc, "variable": v, "observed": float((x ** 2).mean()), "expected": float(m2), "z": float(z2)})
+            return
+    for (a_, u), (b_, v) in itertools.combinations(enumerate(vs), 2):
+        e_uv = sum(w[c] * mus[u][comp[a_]] * mus[v][comp[b_]] for c, comp in enumerate(comps))
+        e2 = sum(w[c] * (sds[u][comp[a_]] ** 2 + mus[u][comp[a_]] ** 2) * (sds[v][comp[b_]] ** 2 + mus[v][comp[b_]] ** 2) for c, comp in enumerate(comps))
+        xy = col(u) * col(v)
+        z = abs(xy.mean() - e_uv) / np.sqrt(max(e2 - e_uv ** 2, 1e-12) / nsamples)
+        if z > 6.5:
+            rep.violation("sample-cross-moment", "the sample cross moment of two variables is incompatible with the joint the circuit encodes (z > 6.5): the variables of one sample do not come from the same mixture component",
+                          {"case": desc, "variables": [u, v], "observed": float(xy.mean()), "expected": float(e_uv), "z": float(z)})
+            return
+
+
 def run(rep, tier, seed, replay=None):
     n = 60 if tier == "quick" else 500
     ns = 4000 if tier == "quick" else 100000
     cs = CaseSet(rep, PID)
     if replay is not None:
         c = replay["replay"].get("case", {})
-        one_case(rep, cs, c.get("seed", seed), c.get("i", 0), c.get("nsamples", ns))
+        if c.get("family") == "gaussian-mixture":
+            gauss_case(rep, c.get("seed", seed), c.get("i", 0), c.get("nsamples", ns))
+        else:
+            one_case(rep, cs, c.get("seed", seed), c.get("i", 0), c.get("nsamples", ns))
         cs.run()
         return
     for i in range(n):
         one_case(rep, cs, seed, i, ns)
+    for i in range(max(12, n // 5)):
+        gauss_case(rep, seed, i, ns)
     cs.run(shard=max(4, 60 // 14))  # shard size of the quick tier: thorough runs use more files, not longer ones
